@@ -54,6 +54,7 @@ ExpectedFlat(T, form, l, k, malt) ==
   CASE form \in {"top", "top_squeeze", "top_positional", "coll_sens", "dataframe"} -> Flat4(T)
     [] form = "src_method" -> Flat4(<<[m \in 1..malt |-> T[l][m]]>>)
     [] form = "sens_method" -> Flat4([s \in 1..Len(T) |-> [m \in 1..malt |-> <<T[s][m][k]>>]])
+    [] form = "sens_method_sumup" -> Flat4(<<[m \in 1..malt |-> <<SumSources(T)[1][m][k]>>]>>)
     [] form \in {"sumup", "sumup_positional", "coll_src", "coll_both"} -> Flat4(SumSources(T))
     [] form \in {"functional", "core"} -> Flat4(<<[m \in 1..Len(T[l]) |-> <<T[l][m][k]>>]>>)
 \* the documented row order of output='dataframe': source, path, sensor, pixel (0-based path and pixel)
